@@ -80,6 +80,7 @@ func (c *specCtx) loadLoc(l *Loc) Val {
 		prefix, t := pathInfo(l.Base, l.Path)
 		ls := leavesOf(t)
 		ts := make([]*Term, len(ls))
+		c.e.ensureWF(c.st, l.Base, false)
 		for i, lf := range ls {
 			ts[i] = Select(c.heap(ptrHeapName(l.Base, prefix+lf.path), heapSort(lf.sort, false)), l.Ref)
 		}
@@ -89,6 +90,7 @@ func (c *specCtx) loadLoc(l *Loc) Val {
 		prefix, t := pathInfo(l.Base, l.Path)
 		ls := leavesOf(t)
 		ts := make([]*Term, len(ls))
+		c.e.ensureWF(c.st, l.Base, true)
 		for i, lf := range ls {
 			ts[i] = Select(Select(c.heap(elemHeapName(l.Base, prefix+lf.path), heapSort(lf.sort, true)), l.Obj), l.Idx)
 		}
@@ -357,6 +359,21 @@ func (c *specCtx) eval(x Expr) Val {
 			sub.bound[bv.Name] = true
 			if s == IntS {
 				sub.env[v.Name] = VInt{bv}
+				// a trigger s[j] on a slice with a symbolic offset cannot be matched (off+j is arithmetic):
+				// quantify over the absolute index a = off + j instead.
+				for _, tg := range n.Trig {
+					for _, te := range tg {
+						if ix := findIndexBy(te, v.Name); ix != nil {
+							if bs, ok := sub.tryEval(ix.X); ok {
+								if sl, ok := bs.(VSlice); ok && !(sl.Off.IsConst() && sl.Off.N.Sign() == 0) {
+									if cur, isInt := sub.env[v.Name].(VInt); isInt && cur.T == bv {
+										sub.env[v.Name] = VInt{Sub(bv, sl.Off)}
+									}
+								}
+							}
+						}
+					}
+				}
 			} else {
 				sub.env[v.Name] = VBool{bv}
 			}
@@ -657,16 +674,33 @@ func (c *specCtx) evalCall(n *ECall) Val {
 			return VBool{Lt(s.Obj, a)}
 		}
 		c.fail("allocated of %T", v)
+	case "disjoint": // two element ranges do not overlap
+		a, okA := c.eval(n.Args[0]).(VSlice)
+		b, okB := c.eval(n.Args[1]).(VSlice)
+		if !okA || !okB {
+			c.fail("disjoint needs two slices")
+		}
+		return VBool{Or(Ne(a.Obj, b.Obj), Le(Add(a.Off, a.Len), b.Off), Le(Add(b.Off, b.Len), a.Off), Eq(a.Len, Zero), Eq(b.Len, Zero))}
 	case "present":
 		m := c.eval(n.Args[0]).(VMap)
 		_, p := c.mapGet(m, c.eval(n.Args[1]))
 		return VBool{p}
-	case "bytesEq":
+	case "bytesEq", "bytesEqOld":
+		// contents of two byte ranges are equal; with bytesEqOld the second is read in the old heap.
+		// Quantification is over the absolute element index so that triggers match.
 		a, b := c.eval(n.Args[0]), c.eval(n.Args[1])
-		ra, la := c.byteReader(a)
-		rb, lb := c.byteReader(b)
-		i := c.e.fresh("i", IntS)
-		return VBool{And(Eq(la, lb), Forall([]*Term{i}, [][]*Term{{ra(i)}}, Implies(And(Le(Zero, i), Lt(i, la)), Eq(ra(i), rb(i)))))}
+		bc := c
+		if id.Name == "bytesEqOld" {
+			bc = c.sub()
+			bc.heaps = c.oldHeaps
+		}
+		ra, oa, la := c.byteReaderAbs(a)
+		rb, ob, lb := bc.byteReaderAbs(b)
+		i := c.e.fresh("k", IntS)
+		j := c.e.fresh("k", IntS)
+		f1 := Forall([]*Term{i}, [][]*Term{{ra(i)}}, Implies(And(Le(oa, i), Lt(i, Add(oa, la))), Eq(ra(i), rb(Add(ob, Sub(i, oa))))))
+		f2 := Forall([]*Term{j}, [][]*Term{{rb(j)}}, Implies(And(Le(ob, j), Lt(j, Add(ob, lb))), Eq(rb(j), ra(Add(oa, Sub(j, ob))))))
+		return VBool{And(Eq(la, lb), f1, f2)}
 	case "called", "notCalled", "callCount":
 		name := n.Args[0].(*EIdent).Name
 		cnt := 0
@@ -723,6 +757,20 @@ func (c *specCtx) byteReader(v Val) (func(i *Term) *Term, *Term) {
 	}
 	c.fail("bytes expected, got %T", v)
 	return nil, nil
+}
+
+// byteReaderAbs reads by absolute element index; returns reader, offset and length.
+func (c *specCtx) byteReaderAbs(v Val) (func(i *Term) *Term, *Term, *Term) {
+	switch s := v.(type) {
+	case VSlice:
+		h := c.heap(elemHeapName(s.Elem, ""), HeapI)
+		return func(i *Term) *Term { return Select(Select(h, s.Obj), i) }, s.Off, s.Len
+	case VString:
+		h := c.heap(strHeap, HeapI)
+		return func(i *Term) *Term { return Select(Select(h, s.Obj), i) }, s.Off, s.Len
+	}
+	c.fail("bytes expected, got %T", v)
+	return nil, nil, nil
 }
 
 func retSort(r string) *Sort {
@@ -956,4 +1004,26 @@ func (c *specCtx) contractOf(key string, args []Expr, preOnly bool) Val {
 		}
 	}
 	return VBool{And(cs...)}
+}
+
+// findIndexBy finds a sub-expression x[name] (index exactly the named variable).
+func findIndexBy(e Expr, name string) *EIndex {
+	switch n := e.(type) {
+	case *EIndex:
+		if id, ok := n.I.(*EIdent); ok && id.Name == name {
+			return n
+		}
+		return findIndexBy(n.X, name)
+	case *ESel:
+		return findIndexBy(n.X, name)
+	case *ECall:
+		for _, a := range n.Args {
+			if r := findIndexBy(a, name); r != nil {
+				return r
+			}
+		}
+	case *EUn:
+		return findIndexBy(n.X, name)
+	}
+	return nil
 }
